@@ -378,9 +378,8 @@ fn gen_scoring_query(rng: &mut StdRng) -> Value {
         }
     };
     // `nf` holds the title tokens indexed with frequencies but without fieldnorms (constant norm): used next to the normed field
-    // `bt` holds the title tokens indexed without frequencies (Basic) but with fieldnorms.  A single term on it is the recorded
-    // finding F53 (its blocks have a block max score of 0): the default generator uses `bt` inside unions / intersections only
-    // (they do not take the block-WAND path for such a field), unless VERIF_UNSTEER names F53.
+    // `bt` holds the title tokens indexed without frequencies (Basic) but with fieldnorms.  A single term on it was finding
+    // F53 (its blocks have a block max score of 0), repaired in /repo: the class is explored by default (qlib::unsteered).
     let t = |rng: &mut StdRng| {
         let f = match rng.random_range(0..10) { 0..=2 => "nf", 3 => "bt", _ => "title" };
         json!({"k":"term","f":f,"t":tok(rng),"opt": if f == "bt" && rng.random_bool(0.5) { "basic" } else { "freq" }})
